@@ -83,6 +83,11 @@ class Prop(object):
         """string matched against known_findings.json"""
         return violation['clause']
 
+    def directed(self, case, obs, mismatch):
+        """cases derived from an input on which model and implementation disagree, tried when the random
+        stream found no failing input (e.g. the same history continued with more versioned work)"""
+        return []
+
     def extra_obligations(self, ctx):
         """generated Lean files etc.; returns (obligations, discharged, notes); may raise ProofBroken"""
         return 0, 0, []
@@ -232,6 +237,24 @@ class Runner(object):
                     violations.append((case, obs, v))
                 for m in out.mismatches:
                     mismatches.append((case, obs, m))
+        # ---- directed search: correspondence broken but no failing input in the random stream
+        directed_tried = 0
+        if mismatches and can_model and not self.replay and not any(
+                match_finding(findings, prop.id, prop.signature(c, o, v)) is None for c, o, v in violations):
+            seen_c = set()
+            for case, obs, m in mismatches[:12]:
+                for cand in prop.directed(case, obs, m):
+                    h = case_hash(cand)
+                    if h in seen_c or directed_tried >= 60:
+                        continue
+                    seen_c.add(h)
+                    directed_tried += 1
+                    try:
+                        obs2, out2 = self.evaluate(cand)
+                    except HarnessTrouble:
+                        continue
+                    for v in out2.violations:
+                        violations.append((cand, obs2, v))
         # ---- verdict
         lines = []
         exit_code = 0
